@@ -73,7 +73,9 @@ theorem deleteV1_hyd {File : Type} (ft : Fault) (d : Disk File) : (deleteV1 ft d
 theorem migrate_good_eq {File : Type} (v : V2 File) (o : Opts) (ft : Fault) (nm : String) (d : Disk File) :
     migrate good v o ft nm d = migrateGood v o ft nm d := by
   simp only [migrate, migrateGood, good, Bool.true_and]
-  rfl
+  cases ft with
+  | write st => cases st <;> rfl
+  | _ => rfl
 
 theorem migrate_preserves : ∀ {File : Type} (v : V2 File), v.Lawful → ∀ (o : Opts) (nm : String) (d : Disk File),
     d.hyd = none → o.dryRun = false → NoEmptyKey d.v1 → allSegs d.v1 ≠ [] →
@@ -93,7 +95,7 @@ theorem migrate_preserves : ∀ {File : Type} (v : V2 File), v.Lawful → ∀ (o
       (.success, if o.deleteOld then deleteV1 .none { d with hyd := some (v.write nm (dedupe good (allSegs d.v1))) }
                  else { d with hyd := some (v.write nm (dedupe good (allSegs d.v1))) }) := by
     rw [migrate_good_eq]
-    simp [migrateGood, hany, hemp, hdry, hver]
+    simp [migrateGood, hany, hemp, hdry, hver, Fault.isWrite]
   rw [hres]
   refine ⟨rfl, v.write nm (dedupe good (allSegs d.v1)), ?_, ?_, hv.name _ _, ?_⟩
   · simp only
@@ -120,11 +122,11 @@ theorem migrate_failure_atomic : ∀ {File : Type} (v : V2 File) (o : Opts) (ft 
   · simp [hl, ha, h2]
   by_cases h3 : o.dryRun = true
   · simp [hl, ha, h2, h3]
-  by_cases h4 : ft = Fault.write
-  · subst h4; simp [ha, h2, h3]
+  by_cases h4 : ft.isWrite = true
+  · simp [hl, ha, h2, h3, h4]
   by_cases hv : o.verify = true
   · by_cases hfv : ft = Fault.verify
-    · subst hfv; simp [ha, h2, h3, hv]
+    · subst hfv; simp [ha, h2, h3, hv, Fault.isWrite]
     · by_cases hok : verifyOk good v (v.write nm (dedupe good (allSegs v1))) (dedupe good (allSegs v1)) = true
       · simp [hl, ha, h2, h3, h4, hv, hfv, hok]
       · simp [hl, ha, h2, h3, h4, hv, hfv, hok]
@@ -169,8 +171,8 @@ theorem migrate_delete_last : ∀ {File : Type} (v : V2 File) (o : Opts) (ft : F
       intro _
       refine ⟨hd, hr', Or.inr ⟨?_, hnil⟩⟩
       simp [hl, ha, h2]
-    by_cases h4 : ft = Fault.write
-    · subst h4; simp [ha, h2, h3]
+    by_cases h4 : ft.isWrite = true
+    · simp [hl, ha, h2, h3, h4]
     by_cases h5 : (o.verify && (decide (ft = Fault.verify) ||
         !verifyOk good v (v.write nm (dedupe good (allSegs d.v1))) (dedupe good (allSegs d.v1)))) = true
     · simp only [hl, ha, h2, h3, h4, h5]; simp
@@ -190,8 +192,8 @@ theorem migrate_delete_last : ∀ {File : Type} (v : V2 File) (o : Opts) (ft : F
     · simp [hl, ha, h2, hd']
     by_cases h3 : o.dryRun = true
     · simp [hl, ha, h2, h3]
-    by_cases h4 : ft = Fault.write
-    · subst h4; simp [ha, h2, h3]
+    by_cases h4 : ft.isWrite = true
+    · simp [hl, ha, h2, h3, h4]
     by_cases h5 : (o.verify && (decide (ft = Fault.verify) ||
         !verifyOk good v (v.write nm (dedupe good (allSegs d.v1))) (dedupe good (allSegs d.v1)))) = true
     · simp only [hl, ha, h2, h3, h4, h5]; simp
@@ -211,6 +213,7 @@ example : (migrate good idV2 ⟨true, true, false⟩ .none "s/r/n" exDisk).1 = .
 example : (migrate good idV2 ⟨true, true, false⟩ .none "s/r/n" exDisk).2.v1 = [] := by decide
 example : (migrate good idV2 ⟨true, true, false⟩ .verify "s/r/n" exDisk).1 = .failed "verify" := by decide
 example : (migrate good idV2 ⟨true, true, false⟩ .verify "s/r/n" exDisk).2.v1 = exFolder := by decide
+example : (migrate good idV2 ⟨true, true, false⟩ (.write 0) "s/r/n" exDisk).2.hyd = none := by decide
 example : (migrate good idV2 ⟨true, true, false⟩ (.unlink 1) "s/r/n" exDisk).2.v1 = [("chunk-b", [⟨"k3", "v3"⟩])] := by decide
 
 theorem idV2_lawful : idV2.Lawful := ⟨fun _ _ _ _ => rfl, fun _ _ => rfl, fun _ _ _ => rfl⟩
@@ -271,6 +274,32 @@ theorem refutes_keepHyd : ¬ Holds keepHyd := by
   have := h.failureAtomic idV2 ⟨true, false, false⟩ .verify "s/r/n" exDisk rfl "verify" (by decide)
   have h2 : (migrate keepHyd idV2 ⟨true, false, false⟩ .verify "s/r/n" exDisk).2.hyd = exDisk.hyd := by rw [this]
   exact absurd h2 (by decide)
+
+/-- a failure while *creating* the .hyd file (header or swamp name cannot be written) leaves the
+    partly written file behind: the migration has failed, yet a `.hyd` now shadows the intact V1 folder -/
+def keepPartial : MCfg := { good with removeOnOpenFail := false }
+
+theorem keepPartial_leaves_file :
+    let r := migrate keepPartial idV2 ⟨true, false, false⟩ (.write 0) "s/r/n" exDisk
+    r.1 = .failed "write" ∧ r.2.v1 = exFolder ∧ r.2.hyd = some ("s/r/n", []) := by decide
+
+theorem refutes_keepPartial : ¬ Holds keepPartial := by
+  intro h
+  have := h.failureAtomic idV2 ⟨true, false, false⟩ (.write 0) "s/r/n" exDisk rfl "write" (by decide)
+  have h2 : (migrate keepPartial idV2 ⟨true, false, false⟩ (.write 0) "s/r/n" exDisk).2.hyd = exDisk.hyd := by rw [this]
+  exact absurd h2 (by decide)
+
+/-- `_partial`: apart from that one failure point the whole statement holds for `keepPartial`:
+    it differs from `good` only in what a stage-0 write failure leaves behind -/
+theorem keepPartial_partial {File : Type} (v : V2 File) (o : Opts) (ft : Fault) (nm : String) (d : Disk File)
+    (hft : ft ≠ .write 0) : migrate keepPartial v o ft nm d = migrate good v o ft nm d := by
+  simp only [migrate, keepPartial, good]
+  cases ft with
+  | write st =>
+    cases st with
+    | zero => exact absurd rfl hft
+    | succ n => rfl
+  | _ => rfl
 
 /-! ### The V1 writer's chunk-overflow path (`writeNewTreasures`)
 
@@ -336,6 +365,7 @@ structure Facts where
   verifyBeforeDelete : Tri
   removeOnVerifyFail : Tri    -- `os.Remove(hydFilePath)` in the verify-failure branch
   removeOnWriteFail  : Tri    -- `os.Remove(filePath)` in both error branches of `writeV2File`
+  removeOnOpenFail   : Tri    -- nothing is left when `NewFileWriterWithName` fails after creating the file
   emptyKeyIsError    : Tri
   verifyValues       : Tri    -- `verifyMigration` looks at entry data (currently: keys only)
   skipsZeroLength    : Tri    -- `parseV1Segments`: `if length == 0 { continue }`
@@ -345,10 +375,10 @@ structure Facts where
 
 def cfgOf (f : Facts) : MCfg :=
   ⟨f.dedupeLast.isYes, f.verifyBeforeDelete.isYes, f.writeBeforeDelete.isYes, f.removeOnVerifyFail.isYes,
-   f.removeOnWriteFail.isYes, f.emptyKeyIsError.isYes, f.verifyValues.isYes⟩
+   f.removeOnWriteFail.isYes, f.removeOnOpenFail.isYes, f.emptyKeyIsError.isYes, f.verifyValues.isYes⟩
 
 def anyUnknown (f : Facts) : Bool :=
-  [f.dedupeLast, f.writeBeforeDelete, f.verifyBeforeDelete, f.removeOnVerifyFail, f.removeOnWriteFail,
+  [f.dedupeLast, f.writeBeforeDelete, f.verifyBeforeDelete, f.removeOnVerifyFail, f.removeOnWriteFail, f.removeOnOpenFail,
    f.emptyKeyIsError, f.verifyValues, f.skipsZeroLength, f.nameFromMeta, f.v1LoadIteratesMap].any (· == .unknown)
 
 def classify (f : Facts) : Verdict :=
@@ -358,6 +388,7 @@ def classify (f : Facts) : Verdict :=
   else if cfgOf f = deleteFirst then .violated ["C23-delete-before-verify"]
   else if cfgOf f = dedupeFirst then .violated ["C23-dedupe-keeps-first"]
   else if cfgOf f = keepHyd then .violated ["C23-hyd-left-after-failed-verify"]
+  else if cfgOf f = keepPartial then .violated ["C23-hyd-left-after-failed-create"]
   else .undetermined "no-theorem-covers-this-combination-of-migrator-facts"
 
 theorem classify_sound (f : Facts) : (classify f).Sound (Holds (cfgOf f)) := by
@@ -374,6 +405,8 @@ theorem classify_sound (f : Facts) : (classify f).Sound (Holds (cfgOf f)) := by
           · rename_i h; rw [h]; exact ⟨refutes_dedupeFirst, trivial⟩
           · split
             · rename_i h; rw [h]; exact ⟨refutes_keepHyd, trivial⟩
-            · trivial
+            · split
+              · rename_i h; rw [h]; exact ⟨refutes_keepPartial, trivial⟩
+              · trivial
 
 end Hv.C23
